@@ -28,7 +28,7 @@ def _handler():
 # ---------------------------------------------------------------------------
 # V: the shared visitor machinery
 
-@family("V.children", props=["C11", "C12", "C13", "C20", "C01", "C03", "C08"],
+@family("V.children", props=["C11", "C12", "C13", "C20", "C01", "C03", "C08", "C15", "C02", "C05", "C04", "C09"],
         functions=[VIS + "::Node.ForEachChild", VIS + "::Node.AcceptVisitor", VIS + "::Visitor.v_Generic", VIS + "::DefaultVisitor.v_Default",
                    "nsl.ast::*._Traverse"])
 def v_children(R):
